@@ -189,6 +189,17 @@ func eqVal(w, g reflect.Value, o EqOptions, path string) error {
 		it := w.MapRange()
 		for it.Next() {
 			gvv := g.MapIndex(it.Key())
+			if !gvv.IsValid() && (w.Type().Key().Kind() == reflect.Interface) {
+				// keys of interface type that hold pointers (an error value is a fresh pointer after
+				// every decode) cannot be looked up by identity: find the equal key instead
+				git := g.MapRange()
+				for git.Next() {
+					if eqVal(it.Key(), git.Key(), o, path+"[key]") == nil {
+						gvv = git.Value()
+						break
+					}
+				}
+			}
 			if !gvv.IsValid() {
 				return fmt.Errorf("%s: key %v missing", path, trunc(fmt.Sprint(it.Key())))
 			}
